@@ -97,7 +97,7 @@ func runC10(w *vx.W) {
 	c10FileIdShapes(w)
 	thorough := !w.Quick()
 	crcStreams()
-	singles := []namedStream{sMin12, sMin14, sMin14z, sAct3, sAct3BE, sSet, sMonState, sZero, sDev, sCRC00}
+	singles := []namedStream{sMin12, sMin14, sMin14z, sAct3, sAct3BE, sSet, sMonState, sZero, sDev, sCRC00, sUnkTail}
 	chains := []namedStream{sChain2, sChain2b, sChain3, sChainState, sChainState3, sChainZero, sChainDev, sChainCRC0}
 	entries := []string{"Decode", "CheckIntegrity", "CheckIntegrityHeaderOnly", "DecodeHeader", "DecodeHeaderAndFileID"}
 	states := map[uint64]struct{}{}
@@ -544,7 +544,32 @@ func (r *plainReader) Read(p []byte) (int, error) {
 	return n, nil
 }
 
-var c10ReaderKinds = []string{"bytes.Reader", "bytes.Buffer", "strings.Reader", "bufio.Reader(16)", "bufio.Reader(4096)", "bufio.Reader(65536)", "os.File", "io.LimitedReader", "io.MultiReader", "io.Pipe", "iotest.OneByteReader", "iotest.HalfReader", "iotest.DataErrReader", "io.SectionReader", "io.TeeReader"}
+// sparseEmptyReader delivers one byte per Read and answers (0, nil) before every k-th byte: legal, never twice in a
+// row, but hundreds of times over a file.
+type sparseEmptyReader struct {
+	b     []byte
+	i, k  int
+	empty bool
+}
+
+func (r *sparseEmptyReader) Read(p []byte) (int, error) {
+	if len(p) == 0 {
+		return 0, nil
+	}
+	if r.i >= len(r.b) {
+		return 0, io.EOF
+	}
+	if r.i%r.k == 0 && !r.empty {
+		r.empty = true
+		return 0, nil
+	}
+	r.empty = false
+	p[0] = r.b[r.i]
+	r.i++
+	return 1, nil
+}
+
+var c10ReaderKinds = []string{"empty-read-before-every-2nd-byte", "empty-read-before-every-5th-byte", "bytes.Reader", "bytes.Buffer", "strings.Reader", "bufio.Reader(16)", "bufio.Reader(4096)", "bufio.Reader(65536)", "os.File", "io.LimitedReader", "io.MultiReader", "io.Pipe", "iotest.OneByteReader", "iotest.HalfReader", "iotest.DataErrReader", "io.SectionReader", "io.TeeReader"}
 
 // c10KindRun returns the observation and the number of bytes consumed (-1 when the reader cannot tell).
 func c10KindRun(kind, entry string, data []byte) (string, int, error) {
@@ -552,6 +577,13 @@ func c10KindRun(kind, entry string, data []byte) (string, int, error) {
 	consumed := func() int { return -1 }
 	var cleanup func()
 	switch kind {
+	case "empty-read-before-every-2nd-byte", "empty-read-before-every-5th-byte":
+		k := 2
+		if kind == "empty-read-before-every-5th-byte" {
+			k = 5
+		}
+		sr := &sparseEmptyReader{b: data, k: k}
+		r, consumed = sr, func() int { return sr.i }
 	case "bytes.Reader":
 		br := bytes.NewReader(data)
 		r, consumed = br, func() int { return len(data) - br.Len() }
